@@ -435,6 +435,47 @@ func runScenario(sc *proto.Scenario, nSites int) (res *proto.Result) {
 		return kinds
 	}
 
+	// race detector: happens-before between operations = program order + After edges
+	hbMemo := map[[4]int]bool{}
+	var hb func(ta, oa, tb, ob int) bool
+	hb = func(ta, oa, tb, ob int) bool {
+		if ta == tb {
+			return oa < ob
+		}
+		k := [4]int{ta, oa, tb, ob}
+		if v, ok := hbMemo[k]; ok {
+			return v
+		}
+		hbMemo[k] = false
+		res := false
+		// (tb,ob) depends on its predecessor in program order and on its After edges
+		if ob > 0 && hb(ta, oa, tb, ob-1) {
+			res = true
+		}
+		if !res && tb < len(sc.Tasks) && ob < len(sc.Tasks[tb]) {
+			for _, d := range sc.Tasks[tb][ob].After {
+				if (d.Task == ta && d.Op >= oa) || hb(ta, oa, d.Task, d.Op) {
+					res = true
+					break
+				}
+			}
+		}
+		hbMemo[k] = res
+		return res
+	}
+	simrt.HappensBefore = hb
+	simrt.RaceExempt = nil
+	if len(sc.RaceExemptPkgs) > 0 {
+		simrt.RaceExempt = map[uint32]bool{}
+		for id, name := range simrt.RaceVarNames() {
+			for _, p := range sc.RaceExemptPkgs {
+				if strings.HasPrefix(name, p+".") {
+					simrt.RaceExempt[id] = true
+				}
+			}
+		}
+	}
+
 	sr := &rng{s: simrt.Mix(sc.Sched.Seed, 0xabcdef)}
 	if sc.Sched.Explicit == nil && sc.Sched.SyncPreempt > 0 && sc.Sched.MeanQuantum > 0 {
 		hr := &rng{s: simrt.Mix(sc.Sched.Seed, 0x5157)}
@@ -630,6 +671,29 @@ func runScenario(sc *proto.Scenario, nSites int) (res *proto.Result) {
 			res.Ops = append(res.Ops, st.res)
 		}
 	}
+	for _, rc := range simrt.Races {
+		kind := ""
+		if rc.Curr.Task < len(sc.Tasks) && rc.Curr.Op < len(sc.Tasks[rc.Curr.Task]) {
+			kind = sc.Tasks[rc.Curr.Task][rc.Curr.Op].Kind
+		}
+		pk := ""
+		if rc.Prev.Task < len(sc.Tasks) && rc.Prev.Op < len(sc.Tasks[rc.Prev.Task]) {
+			pk = sc.Tasks[rc.Prev.Task][rc.Prev.Op].Kind
+		}
+		rw := func(w bool) string {
+			if w {
+				return "write"
+			}
+			return "read"
+		}
+		w.addViolation(proto.Violation{Class: "I-RACE", Task: rc.Curr.Task, Op: rc.Curr.Op, Kind: kind,
+			Object: "package-level variable " + rc.Name, Paths: []string{rc.Name},
+			Detail: fmt.Sprintf("%s by task %d op %d (%s, %d lock(s) held, step %d) and %s by task %d op %d (%s, %d lock(s) held, step %d) are not ordered by happens-before and hold no lock in common",
+				rw(rc.Prev.Write), rc.Prev.Task, rc.Prev.Op, pk, len(rc.Prev.Locks), rc.Prev.Step,
+				rw(rc.Curr.Write), rc.Curr.Task, rc.Curr.Op, kind, len(rc.Curr.Locks), rc.Curr.Step),
+			AtStep: rc.Curr.Step})
+	}
+	w.stats.Touches = simrt.Touches
 	w.stats.Steps = simrt.Steps
 	w.stats.Slices = len(res.Schedule)
 	w.stats.Switches = sched.Switches
